@@ -4,6 +4,8 @@
 (*                                                                         *)
 (* The trace (NDJSON, path in the environment variable TRACE) holds        *)
 (*   {"ev":"set", "post":S}            resynchronise the abstract state    *)
+(*   {"ev":"Emit", "post":S}           a front-end emitted the machine the *)
+(*                                     preceding "set" describes (C16)     *)
 (*   {"ev":<edit>, args..., "post":S}  one API call and the state the real *)
 (*                                     object had after it                 *)
 (* where S = [nin, nout, procs, doms, iin, ion, links, bonds] is read from *)
@@ -64,6 +66,9 @@ TAddProc    == IsEvent("AddProcessor") /\ AAddProc(Trace[l].d)    /\ Judge(Trace
 TAddBond    == IsEvent("AddBond")    /\ AAddBond(Trace[l].e0, Trace[l].e1)  /\ Judge(Trace[l].post)
 TAttachBC   == IsEvent("AttachBC")   /\ AAttachBC(Trace[l].e0, Trace[l].e1) /\ Judge(Trace[l].post)
 TSaveLoad   == IsEvent("SaveLoad")   /\ ASaveLoad                 /\ Judge(Trace[l].post)
+\* a front-end emitted the machine described (on names) by the preceding "set": the emitted object
+\* must be that machine and be well formed (C16)
+TEmit       == IsEvent("Emit")       /\ UNCHANGED avars           /\ Judge(Trace[l].post)
 \* DelBond is addressed by link slot; dname is the name the real object gave that slot before
 \* the call ("" when the slot does not exist: the call must fail and change nothing).
 TDelBond ==
@@ -79,7 +84,7 @@ TraceInit ==
 
 TraceNext ==
   \/ TSet \/ TAddInput \/ TAddOutput \/ TDelInput \/ TDelOutput \/ TAddProc
-  \/ TAddBond \/ TAttachBC \/ TDelBond \/ TSaveLoad
+  \/ TAddBond \/ TAttachBC \/ TDelBond \/ TSaveLoad \/ TEmit
 
 TraceSpec == TraceInit /\ [][TraceNext]_tvars
 
